@@ -279,6 +279,19 @@ class _LexiconElement(_DatabaseEntity):
         else:
             return self._wordnet._lexicon_ids
 
+    def _get_namespace_ids(self) -> tuple[int, ...]:
+        """Return the ids of the searchable lexicons that share this
+        element's identifier namespace: its own lexicon and the
+        lexicons that lexicon extends or is extended by."""
+        family = (
+            {self._lexid}
+            | set(get_lexicon_extension_bases(self._lexid))
+            | set(get_lexicon_extensions(self._lexid))
+        )
+        if self._wordnet._default_mode:
+            return tuple(family)
+        return tuple(i for i in self._wordnet._lexicon_ids if i in family)
+
 
 class Pronunciation:
     """A class for word form pronunciations."""
@@ -1000,7 +1013,15 @@ class Sense(_Relatable):
             Word('pwn-spigot-n')
 
         """
-        return self._wordnet.word(id=self._entry_id)
+        # another installed lexicon (e.g., another version of this one)
+        # may use the same identifier, so only look where this sense's
+        # identifiers are defined
+        lexids = self._get_namespace_ids()
+        if lexids:
+            iterable = find_entries(id=self._entry_id, lexicon_rowids=lexids)
+            for data in iterable:
+                return Word(*data, self._wordnet)
+        raise wn.Error(f'no such lexical entry: {self._entry_id}')
 
     def synset(self) -> Synset:
         """Return the synset of the sense.
@@ -1011,7 +1032,12 @@ class Sense(_Relatable):
             Synset('pwn-03325088-n')
 
         """
-        return self._wordnet.synset(id=self._synset_id)
+        lexids = self._get_namespace_ids()
+        if lexids:
+            iterable = find_synsets(id=self._synset_id, lexicon_rowids=lexids)
+            for data in iterable:
+                return Synset(*data, _wordnet=self._wordnet)
+        raise wn.Error(f'no such synset: {self._synset_id}')
 
     def examples(self) -> list[str]:
         """Return the list of examples for the sense."""
